@@ -16,7 +16,7 @@ from . import forward
 
 from .c13 import lockdown
 
-from .c07 import half_plus_q_contexts, ELEMENT_SEPARATORS
+from .c07 import half_plus_q_contexts, ELEMENT_SEPARATORS, lookahead_accepts_separators
 
 META = {
     'explanation': (
@@ -33,8 +33,9 @@ META = {
         "lots_qqs = lots + qqs, ilots maps lots."
         " Also: half_plus_q_regex completes before every element separator, ilots reads after the last 'L', parallel lots/qqs statements read one collection each, argument-over-attribute lock-down of the lot settings."
         " Round 7: a flag test by prefix cannot be answered by a different flag (dup_lot / dup_lot_acreage); ilots evaluated on lot names the parser writes ('N2 of L7'); a substring pre-test in front of a regex search is implied by every enumerated member of the regex's language."
-        ' Round 8: the duplicate scan is gated on the list it scans; a lot group is cut at the bounds of its whole match.'),
-    'families': ['SEP', 'DEFUSE', 'PAIR', 'RX-LANG', 'FORWARD', 'DEADPARAM', 'SIB-DEFAULTS'],
+        ' Round 8: the duplicate scan is gated on the list it scans; a lot group is cut at the bounds of its whole match.'
+        " Round 10: stale captures of repeated groups (`word_lot_rightmost`, `and`, `thru`) are not read by value in a rightmost walk - this found and repaired a genuine defect ('N/2 of Lot 1 - Lot 3, 4'); the aliquot look-ahead accepts every element separator."),
+    'families': ['SEP', 'DEFUSE', 'PAIR', 'RX-LANG', 'RX-GROUPS', 'FORWARD', 'DEADPARAM', 'SIB-DEFAULTS'],
 }
 
 
@@ -239,9 +240,11 @@ def _rest_of_check(ctx, fi, mlwa, aunp):
     ctx.attempt(common.embedded_case_consistency, modules=('rgxlib.lots', 'rgxlib.aliquots'))
     ctx.attempt(_chain_language)
     ctx.attempt(half_plus_q_contexts, ELEMENT_SEPARATORS)
+    ctx.attempt(lookahead_accepts_separators)
     ctx.attempt(common.parallel_shapes, [f for f in ctx.repo.funcs.values() if f.module.name.endswith(('tract.tract_parse', 'tract.tract', 'unpack.unpackers'))])
     ctx.attempt(common.config_words, plss=('suppress_lot_divs', 'parse_qq'), tract=('suppress_lot_divs', 'parse_qq'))
     ctx.attempt(common.cut_out_spans, ctx.repo.func('TractParser.parse'))
+    ctx.attempt(common.stale_captures, [f for f in ctx.repo.funcs.values() if f.module.name.endswith(('tract.tract_parse', 'tract.tract', 'unpack.unpackers', 'tract.tract_preprocess'))])
 
 
 def _dups(ctx):
